@@ -2,7 +2,8 @@
     Statements only; proofs are in GqlTyping/ProofsTyping.v and ProofsExec.v. *)
 From Coq Require Import List ZArith String Bool Arith.
 From Thunder Require Import Lib.Json GqlTyping.Types GqlTyping.Parse GqlTyping.ProofsParse GqlTyping.ProofsExec
-     GqlTyping.Typing GqlTyping.ProofsTyping GqlTyping.ProofsValid.
+     GqlTyping.Typing GqlTyping.ProofsTyping GqlTyping.ProofsValid
+     GqlTyping.Introspect GqlTyping.ProofsIntrospect GqlTyping.ProofsSim GqlTyping.Conformb GqlTyping.ProofsConformb GqlTyping.GoTypes GqlTyping.ProofsGoTypes.
 Import ListNotations.
 Open Scope string_scope.
 Open Scope list_scope.
@@ -66,6 +67,131 @@ Theorem validation_never_crashes :
 Proof. exact (fun v doc vars q c sch root H => prepare_nocrash v sch root q (convert_certified v doc vars q c H)). Qed.
 Print Assumptions validation_never_crashes.
 
+(** * "The schema reported by introspection is truthful"
+
+    [introspect_types] is the model of graphql/introspection/introspection.go: what ComputeSchemaJSON
+    prints as `__schema.types` for a built schema [x] (kinds, names, descriptions, fields with their
+    arguments, inputFields, enumValues, possibleTypes, type references as kind/name/ofType chains cut
+    at the depth of the introspection query's TypeRef fragment; everything sorted as introspection.go
+    sorts the entries of its Go maps).  [read_types] is the reader a client applies to that JSON.
+    [xwf x]: names are distinct where the code uses map keys, referenced types are defined, and no type
+    reference is wrapped deeper than the TypeRef fragment prints.  The harness compares
+    [introspect_types] of the walked built schema with the JSON the implementation printed, on every
+    generated schema, and checks [xwf] of it. *)
+
+(** The reader inverts the printer, for every well-formed schema: nothing about a type that matters to
+    a client is lost or altered in the JSON (only the order of Go map entries and the key marks are). *)
+Theorem introspection_readable :
+  forall x : xschema, xwf x = true -> read_types (introspect_types x) = Some (xnormalize x).
+Proof. exact read_introspect. Qed.
+Print Assumptions introspection_readable.
+
+(** Truthful for validation: PrepareQuery judged against the types a client reconstructs from the
+    printed JSON gives the verdict (and the number of calls) the real PrepareQuery gives against the
+    built schema, for every variant of the traversal, every root, every query. *)
+Theorem introspection_truthful_for_validation :
+  forall (x y : xschema) (v : variant) (root : string) (q : query),
+    xwf x = true -> read_types (introspect_types x) = Some y ->
+    prepare v (erase y) root q = prepare v (erase x) root q.
+Proof. exact truthful_prepare. Qed.
+Print Assumptions introspection_truthful_for_validation.
+
+(** … hence completeness of rejection can be judged from the advertised schema alone: an applicable
+    part that is ill-formed according to the printed JSON makes the real PrepareQuery fail. *)
+Theorem rejection_complete_against_advertised :
+  forall (v : variant) (x y : xschema) (root : string) (q : query) (tn' : string) (l' : list titem),
+    xwf x = true -> read_types (introspect_types x) = Some y ->
+    applies (erase y) (q_frags q) root (q_sel q) tn' l' -> bad (erase y) tn' l' ->
+    forall n, prepare v (erase x) root q <> ROk n.
+Proof. exact rejection_complete_advertised. Qed.
+Print Assumptions rejection_complete_against_advertised.
+
+(** Truthful for execution: the reference evaluator over the reconstructed types returns what it
+    returns over the built schema. *)
+Theorem introspection_truthful_for_execution :
+  forall (x y : xschema) (tbl : ftable) (fuel : nat) (t : tref) (sel : option (list titem)) (v : value),
+    xwf x = true -> read_types (introspect_types x) = Some y ->
+    eval (erase y) tbl fuel t sel v = eval (erase x) tbl fuel t sel v.
+Proof. exact truthful_eval. Qed.
+Print Assumptions introspection_truthful_for_execution.
+
+(** (b) composed with introspection: every response computed over the BUILT schema from well-typed data
+    conforms to the types reconstructed from the PRINTED JSON – the statement a client relies on. *)
+Theorem response_conforms_to_advertised :
+  forall (x y : xschema) (tbl : ftable) (fuel : nat) (t : tref) (sel : option (list titem)) (v : value) (j : json),
+    xwf x = true -> read_types (introspect_types x) = Some y ->
+    has_type (erase x) false t v -> eval (erase x) tbl fuel t sel v = EOk j ->
+    conforms (erase y) tbl false t sel j.
+Proof. exact truthful_conforms. Qed.
+Print Assumptions response_conforms_to_advertised.
+
+(** The limit of the introspection query, exactly: a type reference with at most [ref_depth - 1 = 7]
+    List/NonNull wrappers is read back as itself; a deeper one is cut off by the TypeRef fragment and the
+    reader fails – it never reconstructs a different type. *)
+Theorem type_reference_read_back_or_unreadable :
+  forall (x : xschema) (t : tref),
+    (wrappers t < ref_depth -> read_ref ref_depth (ref_json x ref_depth t) = Some t) /\
+    (ref_depth <= wrappers t -> read_ref ref_depth (ref_json x ref_depth t) = None).
+Proof. exact ref_readable_iff. Qed.
+Print Assumptions type_reference_read_back_or_unreadable.
+
+(** The conformance relation is decidable by an executable check, sound for every schema, selection and
+    JSON value.  (Its map-based twin [rconformsb] - objects as maps, selections sharing an alias merged
+    as Flatten merges them - is evaluated by the harness on every response of the implementation, against
+    the schema [read_types] reads from the implementation's printed introspection JSON.) *)
+Theorem conformance_check_sound :
+  forall (sch : schema) (tbl : ftable) (fuel : nat) (t : tref) (sel : option (list titem)) (j : json),
+    conformsb sch tbl fuel false t sel j = true -> conforms sch tbl false t sel j.
+Proof. exact conformsb_conforms. Qed.
+Print Assumptions conformance_check_sound.
+
+(** * "null only where the type is nullable", at the builder
+
+    [get_type] / [field_type] are the model of schemabuilder's getType (build.go 44-101), getReturnType
+    (function.go) and consumeReturnValue (batch.go); [enforce] of the non-null enforcement on resolver
+    results (function.go 386-409, batch.go extractResultsAndErr).  The harness exports the Go type of
+    every generated field and [field_type] must give the type the builder gave it. *)
+
+(** getType marks a type non-null exactly when the Go type cannot hold nil (everything but a pointer
+    that is not itself a scalar or an enum), for every Go type it accepts … *)
+Theorem nonnull_exactly_when_go_type_cannot_be_nil :
+  forall (force : bool) (g : gotype) (t : tref),
+    get_type force g = Some t -> is_nonnull t = negb (admits_nil g).
+Proof. exact get_type_nullable. Qed.
+Print Assumptions nonnull_exactly_when_go_type_cannot_be_nil.
+
+(** … list entries are marked non-null at every depth for struct fields (the exception the property
+    makes for list entries is therefore about every list thunder advertises) … *)
+Theorem list_entries_always_marked_nonnull :
+  forall (g : gotype) (t : tref), field_type KStructField g = Some t -> entries_nonnull t = true.
+Proof. exact get_type_entries. Qed.
+Print Assumptions list_entries_always_marked_nonnull.
+
+(** … a field registered with options is advertised non-null exactly when NonNullable was given or the
+    Go type cannot be nil (FieldFunc), resp. when NonNullable was given or the result is a list
+    (BatchFieldFunc) … *)
+Theorem advertised_nullability_of_a_field :
+  forall (k : fkind) (g : gotype) (t : tref),
+    field_type k g = Some t ->
+    is_nonnull t = match k with
+                   | KStructField => negb (admits_nil g)
+                   | KFunc nn _ => nn || negb (admits_nil g)
+                   | KBatch nn _ => nn || is_list t
+                   end.
+Proof. exact field_type_nullable. Qed.
+Print Assumptions advertised_nullability_of_a_field.
+
+(** … and the enforcement matches the advertisement: a resolver result that is delivered (the request
+    does not fail) under a non-null type is not nil - but for a batch resolver that leaves out the entry
+    of a list-typed field, which renders as an empty list, not as null.  Together with the first theorem
+    this is the premise [has_type] of [response_conforms] for the values of one field. *)
+Theorem delivered_result_under_nonnull_is_not_nil :
+  forall (k : fkind) (g : gotype) (t : tref) (nil : bool),
+    k <> KStructField -> field_type k g = Some t -> enforce k t nil = Delivered -> is_nonnull t = true ->
+    nil = false \/ (exists nn le e, k = KBatch nn le /\ t = TNonNull (TList e)).
+Proof. exact delivered_nonnull. Qed.
+Print Assumptions delivered_result_under_nonnull_is_not_nil.
+
 (** Non-vacuity. *)
 Example ex_eval :
   eval ex_sch [] 10 (TNamed "Query") (Some ex_sel) ex_data =
@@ -79,3 +205,46 @@ Example ex_rejected :
   prepare orig ex_sch "Query" {| q_name := ""; q_kind := "query"; q_sel := [TField "o" "obj" [] [] (Some [TField "x" "nope" [] [] None])]; q_frags := [] |}
   = RErr EPUnknownField.
 Proof. reflexivity. Qed.
+
+(** The introspection model on a schema with arguments, an input object, a union, an enum and a key. *)
+Example ex_x_well_formed : xwf ex_x = true.
+Proof. reflexivity. Qed.
+Example ex_x_read_back :
+  option_map erase (read_types (introspect_types ex_x)) =
+  Some [("Obj", DObject [("shade", TNonNull (TNamed "Shade")); ("tags", TNonNull (TList (TNonNull (TNamed "string")))); ("u", TNamed "U")] None);
+        ("Query", DObject [("n", TNonNull (TNamed "int64")); ("o", TNamed "Obj")] None);
+        ("Shade", DEnum ["DARK"; "LIGHT"]); ("U", DUnion ["Obj"]); ("int64", DScalar); ("string", DScalar)].
+Proof. reflexivity. Qed.
+Example ex_printed_reference :
+  ref_json ex_x ref_depth (TNonNull (TList (TNamed "Obj"))) =
+  JObj [("kind", JStr "NON_NULL"); ("name", JNull);
+        ("ofType", JObj [("kind", JStr "LIST"); ("name", JNull);
+                         ("ofType", JObj [("kind", JStr "OBJECT"); ("name", JStr "Obj"); ("ofType", JNull)])])].
+Proof. reflexivity. Qed.
+Example ex_eight_wrappers_unreadable :
+  let t := TNonNull (TList (TNonNull (TList (TNonNull (TList (TNonNull (TList (TNamed "int64")))))))) in
+  wrappers t = 8 /\ read_ref ref_depth (ref_json ex_x ref_depth t) = None.
+Proof. split; reflexivity. Qed.
+Example ex_conformance_check :
+  conformsb ex_sch [] 10 false (TNamed "Query") (Some ex_sel)
+    (JObj [("n", JNum 3); ("o", JObj [("__typename", JStr "Obj"); ("tags", JArr [JStr "a"; JNull]); ("shade", JStr "DARK")])]) = true /\
+  conformsb ex_sch [] 10 false (TNamed "Query") (Some ex_sel)
+    (JObj [("n", JNull); ("o", JObj [("__typename", JStr "Obj"); ("tags", JArr [JStr "a"; JNull]); ("shade", JStr "DARK")])]) = false.
+Proof. split; reflexivity. Qed.
+
+(** getType on the usual shapes: int64, *int64, a registered enum, *enum (a pointer to an enum is a nullable
+    scalar of the enum's kind), time.Time, []byte, []*User, *User under NonNullable. *)
+Example ex_get_type :
+  get_type true g_int64 = Some (TNonNull (TNamed "int64")) /\
+  get_type true (GPtr f_none g_int64) = Some (TNamed "int64") /\
+  get_type true g_shade = Some (TNonNull (TNamed "Shade")) /\
+  get_type true (GPtr f_none g_shade) = Some (TNamed "int32") /\
+  get_type true g_time = Some (TNonNull (TNamed "Time")) /\
+  get_type true g_bytes = Some (TNonNull (TNamed "bytes")) /\
+  get_type true (GSlice f_none (GPtr f_none g_user)) = Some (TNonNull (TList (TNonNull (TNamed "User")))) /\
+  get_type false (GSlice f_none (GPtr f_none g_user)) = Some (TNonNull (TList (TNamed "User"))) /\
+  field_type (KFunc true false) (GPtr f_none g_user) = Some (TNonNull (TNamed "User")) /\
+  field_type (KBatch false false) g_user = Some (TNamed "User") /\
+  enforce (KFunc true false) (TNonNull (TNamed "User")) true = RequestFails /\
+  enforce (KBatch false false) (TNamed "User") true = Delivered.
+Proof. repeat split; reflexivity. Qed.
